@@ -6,6 +6,10 @@ if ! /venv/bin/python -c "import hypothesis" 2>/dev/null; then
   /venv/bin/pip install --no-index --find-links /opt/veriftools/wheels hypothesis
 fi
 /venv/bin/python -c "import hypothesis, lark, particle; print('hypothesis', hypothesis.__version__)"
+# optional coverage-guided pass (thorough tier of C01/C06 only); no claim depends on it
+if [ ! -d .deps/atheris ]; then
+  /venv/bin/pip install -q --no-index --find-links /opt/veriftools/wheels --target .deps atheris >/dev/null 2>&1 || echo "atheris wheel not installable: thorough tier skips the coverage-guided pass"
+fi
 PYTHONPATH=/repo/src:$PWD PYTHONDONTWRITEBYTECODE=1 /venv/bin/python - <<'PY'
 import importlib, pkgutil, pbt.props
 for m in pkgutil.iter_modules(pbt.props.__path__):
